@@ -64,6 +64,8 @@ func (v c03Val) lit() string {
 		return "false"
 	}
 	switch v.T {
+	case "big":
+		return map[string]string{"max": "9223372036854775807", "max-1": "9223372036854775806", "min": "(-9223372036854775807 - 1)", "min+1": "(-9223372036854775807)"}[v.S]
 	case "arr":
 		return "[1, 2]"
 	case "obj":
@@ -84,6 +86,8 @@ func (v c03Val) tag() string {
 		return fmt.Sprintf("bool:%v", v.B)
 	case "arr", "obj":
 		return v.T
+	case "big":
+		return "int:" + v.S
 	}
 	return "null"
 }
@@ -134,7 +138,7 @@ func C03(c *Ctx) *kf.Report {
 	rep := &kf.Report{Property: "C03", Level: "model_checking", Coverage: map[string]any{}}
 	rep.Assumptions = []string{
 		"operands are bound to variables first ($a = lit; $b = lit;) so that the check is about operator semantics, not about literal parsing (C04)",
-		"exact results are checked with === against a literal of the expected value; floats are exact dyadic rationals, non-dyadic results only by kind (TLC has no floats, 32-bit ints: 64-bit boundary arithmetic is not decided here)",
+		"exact results are checked with === against a literal of the expected value; floats are exact dyadic rationals, non-dyadic results only by kind (TLC has no floats and 32-bit ints); the 64-bit boundary integers min, min+1, max-1, max are symbolic: their order, equality, identity and truthiness are exact, arithmetic on them is only required not to crash",
 		"string comparison is prescribed only for non-numeric strings; '0' is the only unanchored truthiness value (all eight contexts must still agree)",
 	}
 	res := runTLC(rep, tlc.Run{SpecDir: c.SpecDir(), Module: "Values", Cfg: "Values.cfg", Timeout: 20 * time.Minute,
